@@ -146,6 +146,38 @@ theorem ber_loop_tie (z : Nat) : berLoop z [56, 48, 40, 32, 24, 16, 8]
     = .ok 0 := by
   simp [berLoop]
 
+/-- **BerExp's lazy comparison is one integer comparison**: reading the 7 random bytes as a big-endian 56-bit number B,
+    the loop reports "below" exactly when B < ⌊z / 2^8⌋ mod 2^56 (bits 8 … 63 of the 64-bit threshold) — for every z and
+    every 7 bytes.  Under uniform bytes the acceptance probability is therefore exactly (⌊z/256⌋ mod 2^56) / 2^56. -/
+theorem ber_loop_is_comparison (z b0 b1 b2 b3 b4 b5 b6 : Nat)
+    (h0 : b0 < 256) (h1 : b1 < 256) (h2 : b2 < 256) (h3 : b3 < 256) (h4 : b4 < 256) (h5 : b5 < 256) (h6 : b6 < 256) :
+    ∃ w, berLoop z [56, 48, 40, 32, 24, 16, 8] [b0, b1, b2, b3, b4, b5, b6] = .ok w ∧
+      (w < 0 ↔ b0 * 2 ^ 48 + b1 * 2 ^ 40 + b2 * 2 ^ 32 + b3 * 2 ^ 24 + b4 * 2 ^ 16 + b5 * 2 ^ 8 + b6 < z / 2 ^ 8 % 2 ^ 56) := by
+  simp only [berLoop]
+  have e48 : (2 : Nat) ^ 48 = 281474976710656 := by decide
+  have e40 : (2 : Nat) ^ 40 = 1099511627776 := by decide
+  have e32 : (2 : Nat) ^ 32 = 4294967296 := by decide
+  have e24 : (2 : Nat) ^ 24 = 16777216 := by decide
+  have e16 : (2 : Nat) ^ 16 = 65536 := by decide
+  have e8 : (2 : Nat) ^ 8 = 256 := by decide
+  have e56 : (2 : Nat) ^ 56 = 72057594037927936 := by decide
+  rw [e48, e40, e32, e24, e16, e8, e56]
+  split
+  · exact ⟨_, rfl, by omega⟩
+  · split
+    · exact ⟨_, rfl, by omega⟩
+    · split
+      · exact ⟨_, rfl, by omega⟩
+      · split
+        · exact ⟨_, rfl, by omega⟩
+        · split
+          · exact ⟨_, rfl, by omega⟩
+          · split
+            · exact ⟨_, rfl, by omega⟩
+            · split
+              · exact ⟨_, rfl, by omega⟩
+              · exact ⟨_, rfl, by omega⟩
+
 /-- **ApproxExp core never underflows**: one Horner step with z < 2^63 and y ≤ cu < 2^64 -/
 theorem horner_step_ok (chk : Bool) (z y cu : Nat) (hz : z < 2 ^ 63) (hy : y ≤ cu) (hcu : cu < 2 ^ 64) :
     ∃ y', hornerStep chk z y cu = .ok y' ∧ y' ≤ cu := by
